@@ -391,7 +391,7 @@ func (w *World) Shutdown(sub *SubNode, ls ...*listener) {
 			sub.Close()
 		}
 		// let delayed responses and cancelled requests run out
-		time.Sleep(5 * time.Second)
+		time.Sleep(40 * time.Second)
 	}()
 	<-done
 }
